@@ -78,6 +78,28 @@ SUCCESS_VALUES = list(range(1, 33))
 FAIL_VALUES = [0] + [(-k) & 0xff for k in range(1, 9)]
 
 
+def _own_slot_flag_found_set(p, fn, m):
+    """A condition of the path says that bit `1 << X` of the flag word is set, X being the expected value validated by the
+    successful compare-exchange on sendp (the slot this claim hands out)."""
+    cas = [e for e in _events_on(p, fn, m, "sendp", ("cmpxchg",))]
+    if not cas:
+        return False
+    own = strip_casts(cas[-1].extra)
+    for c, taken, inst in p.conds:
+        cc = strip_casts(c)
+        if cc[0] != "icmp" or cc[1] not in ("eq", "ne") or cc[3][0] != "c" or cc[3][2] != 0:
+            continue
+        a = strip_casts(cc[2])
+        if a[0] == "b" and a[1] == "and":
+            for x, y in ((a[3], a[4]), (a[4], a[3])):
+                bit = _one_bit_mask(y)
+                xs = strip_casts(x)
+                if bit is not None and xs[0] in ("ald", "ld") and _mq_field(xs[1], fn, m) == "full_flags" and strip_casts(bit) == own:
+                    if (cc[1] == "ne") == bool(taken):
+                        return True
+    return False
+
+
 def check_claim(chk, cfg, m, fn):
     tag = "%s[%s]" % (fn.name, cfg)
     # messageq_claim contains the compare-exchange retry loop: paths with at most one retry are examined, every CAS
@@ -87,6 +109,11 @@ def check_claim(chk, cfg, m, fn):
     optimistic = False
     for p in ps:
         pathid = "%s path %s" % (tag, "->".join(b.lstrip("%") for b in p.blocks))
+        if _own_slot_flag_found_set(p, fn, m):
+            # ring invariant (assumption, stated in the evidence): the flag of the slot a successful compare-exchange hands out is
+            # clear - flags are set only by the send of a claimed slot and cleared by receive before release returns the permit,
+            # so with a permit in hand the slot at the cursor carries no message.  A defensive re-check of exactly that bit is dead.
+            continue
         subs = [e for e in _events_on(p, fn, m, "num_free", ("rmw",)) if e.extra == "sub"]
         cas_nf = _events_on(p, fn, m, "num_free", ("cmpxchg",))
         if subs:
@@ -238,6 +265,8 @@ def check_claim(chk, cfg, m, fn):
         for v in SUCCESS_VALUES + FAIL_VALUES:
             want = -1 if v in SUCCESS_VALUES else 0
             for p in ps:
+                if _own_slot_flag_found_set(p, fn, m):
+                    continue
                 subs = [e for e in _events_on(p, fn, m, "num_free", ("rmw",)) if e.extra == "sub"]
                 if not subs:
                     continue
@@ -648,6 +677,7 @@ def run(chk):
     chk.rule("R6", "receivep accessed only by receiver-role functions and initialisers")
     chk.assumptions += [
         "queue_len in [1, 255] (the header documents <= 32); indices observed in sendp are in [0, queue_len-1] (inductive)",
+        "ring invariant: the flag of the slot that a successful compare-exchange on sendp hands out is clear (used only to discard paths that re-check exactly that bit)",
         "clang's lowering of <stdatomic.h>/__atomic builtins is the C11 operation of the same name (the repo builds with gcc)",
         "headline behaviour (linearizability, claim-order delivery, quiescent free count under all interleavings) is NOT decided",
     ]
